@@ -187,15 +187,18 @@ func runC14Conc(args []string) error {
 	fs, out, seed := newFlags("c14conc")
 	nrace := fs.Int("race", 40, "race cases")
 	nexp := fs.Int("expiry", 8, "expiry cases")
+	nsteady := fs.Int("steady", 3, "steady-stream cases")
 	maxG := fs.Int("maxg", 32, "max goroutines")
 	fs.Parse(args)
 	rng := rand.New(rand.NewSource(*seed))
 	rt := c14rt.Install(*seed)
 	defer c14rt.Uninstall()
 	cases := []c14Case{}
-	for i := 0; i < *nrace+*nexp; i++ {
+	for i := 0; i < *nrace+*nexp+*nsteady; i++ {
 		mode := "race"
-		if i >= *nrace {
+		if i >= *nrace+*nexp {
+			mode = "steady"
+		} else if i >= *nrace {
 			mode = "expiry"
 		}
 		cases = append(cases, c14RunConc(rt, rng, mode, *maxG, *seed*100000+int64(i)))
@@ -212,7 +215,7 @@ func c14RunConc(rt *c14rt.RT, rng *rand.Rand, mode string, maxG int, cseed int64
 		eff = 200 // the generated payloads are shorter than that: everything is hashed
 	}
 	w := time.Hour
-	if mode == "expiry" {
+	if mode != "race" {
 		w = time.Duration(40+20*rng.Intn(4)) * time.Millisecond
 	}
 	res = c14Case{Mode: mode, Hasher: hk, Limit: limit, WNs: int64(w), Seed: cseed}
@@ -220,6 +223,9 @@ func c14RunConc(rt *c14rt.RT, rng *rand.Rand, mode string, maxG int, cseed int64
 	// key material: nk bases; a message of base b is the base prefix (>= the effective limit
 	// for half of the bases, so that tails are ignored) plus a random tail
 	nk := 1 + rng.Intn(4)
+	if mode == "steady" {
+		nk = 1 + rng.Intn(3)
+	}
 	bases := make([][]byte, nk)
 	for b := range bases {
 		l := eff
@@ -232,8 +238,7 @@ func c14RunConc(rt *c14rt.RT, rng *rand.Rand, mode string, maxG int, cseed int64
 	nextID := 1
 	world := &c14World{rt: rt, byMsg: map[*message.Message]*c14Msg{}, herr: errors.New("handler fails"),
 		calls: map[int][]int{}, inner: map[int][][]int{}, topics: map[int]bool{}, ierr: map[int]bool{}, hres: map[int]c14HRes{}}
-	newMsg := func() c14Msg {
-		b := rng.Intn(nk)
+	newMsgOf := func(b int) c14Msg {
 		p := append([]byte(nil), bases[b]...)
 		if len(p) >= eff && rng.Intn(2) == 0 {
 			tail := make([]byte, 1+rng.Intn(5))
@@ -243,6 +248,8 @@ func c14RunConc(rt *c14rt.RT, rng *rand.Rand, mode string, maxG int, cseed int64
 		m := message.NewMessage(fmt.Sprintf("m%d", nextID), p)
 		if hk == "meta" {
 			switch r := rng.Intn(10); {
+			case mode == "steady":
+				m.Metadata.Set("dedup", fmt.Sprintf("v%d", b))
 			case r == 0: // field absent: the hasher fails
 			case r == 1:
 				m.Metadata.Set("dedup", "")
@@ -260,12 +267,42 @@ func c14RunConc(rt *c14rt.RT, rng *rand.Rand, mode string, maxG int, cseed int64
 		}
 		return cm
 	}
+	newMsg := func() c14Msg { return newMsgOf(rng.Intn(nk)) }
 	G := 1 + rng.Intn(maxG)
+	if mode == "steady" {
+		G = 1 + rng.Intn(3)
+	}
 	if mode == "expiry" && G > 8 {
 		G = 1 + rng.Intn(8)
 	}
 	threads := make([]c14Thread, G)
+	if mode == "steady" {
+		// ONE small set of keys, each sent once at the start and then steadily, every w/8..w/4,
+		// for 12 windows; no other key ever arrives and nobody calls Len() meanwhile
+		for t := range threads {
+			threads[t].Tid = t
+			if t == 0 {
+				for b := 0; b < nk; b++ {
+					threads[0].Ops = append(threads[0].Ops, c14Op{Kind: "mw", Msgs: []c14Msg{newMsgOf(b)}})
+				}
+			} else {
+				threads[t].Ops = append(threads[t].Ops, c14Op{Kind: "sleep", SleepNs: int64(w) / 4})
+			}
+			iv := int64(w) / int64(4+rng.Intn(5))
+			for spent := int64(0); spent < 12*int64(w); spent += iv {
+				threads[t].Ops = append(threads[t].Ops, c14Op{Kind: "sleep", SleepNs: iv})
+				if rng.Intn(3) == 0 {
+					threads[t].Ops = append(threads[t].Ops, c14Op{Kind: "dec", Msgs: []c14Msg{newMsg()}})
+				} else {
+					threads[t].Ops = append(threads[t].Ops, c14Op{Kind: "mw", Msgs: []c14Msg{newMsg()}})
+				}
+			}
+		}
+	}
 	for t := range threads {
+		if mode == "steady" {
+			break
+		}
 		threads[t].Tid = t
 		nops := 1 + rng.Intn(3)
 		for o := 0; o < nops; o++ {
@@ -435,7 +472,7 @@ func c14RunConc(rt *c14rt.RT, rng *rand.Rand, mode string, maxG int, cseed int64
 		close(drained)
 	}
 	wg.Wait()
-	if mode == "expiry" {
+	if mode != "race" {
 		// liveness of the clean-up: after the last calls the map must empty itself again
 		t0 := time.Now()
 		for lenOf.Len() > 0 && time.Since(t0) < c14DrainWait {
